@@ -257,6 +257,8 @@ func faultClass(backend string, lines []string, faultAt int, kind string, base p
 	switch {
 	case inPlan:
 		return "change"
+	case l == "show hostname" || l == "hostname -s":
+		return "name_check" // the output is compared with the device name: inspected
 	case l == "write term" || l == "sh run":
 		return "retrieval"
 	case l == "write memory" || l == "commit" || l == "show jobs" ||
@@ -291,6 +293,51 @@ func oracle(c CaseIn, o CaseOut, base, baseE plan) verdict {
 		kindEff = "unexpected"
 	}
 	c.FaultKind = kindEff
+	// every run, whatever happens: the change commands the device received are a prefix of the
+	// planner's script (Linux: then of the three activation commands; PAN-OS: a command may be
+	// repeated once by net/http) -- never a foreign command, never out of order
+	{
+		extras := []string{"chmod a+x /etc/network/packet-filter.new", "/etc/network/packet-filter.new",
+			"mv -f /etc/network/packet-filter.new /etc/network/packet-filter"}
+		isPrefixOf := func(got, want []string) bool {
+			if len(got) > len(want) {
+				return false
+			}
+			for i := range got {
+				if got[i] != want[i] {
+					return false
+				}
+			}
+			return true
+		}
+		okAny := false
+		for _, p := range []plan{base, baseE} {
+			want := p.lines()
+			if c.Scen.Backend == "Linux" && p.ipt {
+				want = append(append([]string{}, want...), extras...)
+			}
+			inWant := map[string]bool{}
+			for _, w := range want {
+				inWant[w] = true
+			}
+			var got []string
+			for _, l := range o.Lines {
+				cl := canonLine(c.Scen.Backend, l)
+				if inWant[cl] {
+					if c.Scen.Backend == "PAN-OS" && len(got) > 0 && got[len(got)-1] == cl && c.FaultKind == "close" {
+						continue // replayed by net/http
+					}
+					got = append(got, cl)
+				}
+			}
+			if isPrefixOf(got, want) {
+				okAny = true
+			}
+		}
+		if !okAny {
+			return verdict{false, "change_commands_not_a_prefix_of_the_script", "the change commands received are not a prefix of the planner's script"}
+		}
+	}
 	if o.FaultAt >= 0 && !benignKind(c.FaultKind) {
 		// a device-side failure was injected
 		cls := faultClass(c.Scen.Backend, o.Lines, o.FaultAt, c.FaultKind, base, baseE)
@@ -449,6 +496,7 @@ func parseModel(ans string) map[string]string {
 func quickParams() []ScenParams {
 	return []ScenParams{
 		{Backend: "ASA", Adds: 2, Replaces: 1, Dels: 1},
+		{Backend: "ASA"}, // device equal to the target: approve applies nothing, compare records UPTODATE
 		{Backend: "ASA", Adds: 1, Replaces: 1, YesNo: true, EnablePW: true, PagerOff: true, Width511: true},
 		{Backend: "IOS", Adds: 1, Replaces: 1, Dels: 1, SaveAsk: true},
 		{Backend: "IOS", Adds: 2, EnablePW: true, Overwrite: true},
